@@ -1,8 +1,564 @@
-import Gonuts.Lemmas.Amount
+import Gonuts.Lemmas.Send
+import Gonuts.Lemmas.Sorter
+import Gonuts.Lemmas.SelectFixed
+import Gonuts.Lemmas.Blank
+/-!
+  C18 — send hands over exactly the requested amount, fees included when asked.
+  Pure part: coin selection, fee and split arithmetic of the wallet (`Model.Select`, `Model.Amount`),
+  `UInt64` semantics, for every multiset of proofs, every amount, every `input_fee_ppk`, and every
+  tie-breaking of Go's unstable `sort.Slice` (`srt : Sorter` with `srt.OK`: the two sort calls return a
+  permutation of their input — nothing else about them is used).
+
+  ℕ-valued notions (`Lemmas/Select.lean`): `amountN ps` = Σ amounts, `ppkSum m ps` = Σ input_fee_ppk as the
+  wallet looks them up, `feeN m ps = ⌈ppkSum / 1000⌉`, `feeOptN m inc ps` = `feeN` if fees are included else 0,
+  `NoWrap m inc ps` = "Σ amounts + fee of spending all of `ps` < 2^64 and (if fees) Σ ppk + 999 < 2^64".
+
+  Known findings (the code as it is violates the full property; model = code):
+  * `send_exact_fee_full_false`  — K6 `C18/swapToSend/fee-split-popcount`;
+  * `send_succeeds_full_false`   — `C18/selectProofsForAmount/inactive-selection-discarded` and
+    `C18/selectProofsForAmount/per-call-fee-ceilings` (both need proofs of an inactive keyset).
+  Only property theorems here; helper lemmas are in `Gonuts/Lemmas/{Amount,Select,Send}.lean`.
+-/
 namespace Gonuts.Props.C18
-open Gonuts.Model
+open Gonuts.Model Gonuts.Model.Select
+
+-- the closed witnesses below are evaluated by `decide`
+set_option maxRecDepth 100000
 
 theorem amountChecked_exact (xs : List UInt64) (r : UInt64) (h : amountChecked xs = some r) :
     r.toNat = natSum xs := amountChecked_some xs r h
+
+example : amountChecked [1, 2, 3] = some 6 := by decide
+
+/-! ## AmountSplit -/
+
+/-- Σ AmountSplit(a) = a (in ℕ: no entry and no partial sum wraps). -/
+theorem amountSplit_sum (a : UInt64) : natSum (amountSplit a) = a.toNat := amountSplit_natSum a
+
+/-- The entries are distinct powers of two below 2^64, in strictly ascending order. -/
+theorem amountSplit_pow2_strictMono (a : UInt64) :
+    ∃ exps : List Nat, exps.Pairwise (· < ·) ∧ (∀ e ∈ exps, e < 64) ∧
+      amountSplit a = exps.map (fun e => UInt64.ofNat (2 ^ e)) ∧
+      (amountSplit a).map UInt64.toNat = exps.map (2 ^ ·) ∧
+      (amountSplit a).Pairwise (· < ·) := by
+  refine ⟨amountSplitExps a, amountSplitExps_pairwise a, amountSplitExps_lt a, amountSplit_eq_map a, ?_,
+    amountSplit_pairwise_lt a⟩
+  rw [amountSplit_eq_map, List.map_map]
+  exact List.map_congr_left (fun e he => toNat_ofNat_pow2 (amountSplitExps_lt a e he))
+
+example : amountSplit 13 = [1, 4, 8] := by decide
+example : amountSplit (UInt64.ofNat (2 ^ 64 - 1)) = (List.range 64).map (fun e => UInt64.ofNat (2 ^ e)) := by decide
+
+/-! ## fees -/
+
+/-- `(s + 999) / 1000` is the ceiling of `s / 1000`: the least `n` with `s ≤ 1000 n`. -/
+theorem ceilDiv1000_is_ceiling (s : Nat) :
+    s ≤ 1000 * ceilDiv1000 s ∧ ∀ n, s ≤ 1000 * n → ceilDiv1000 s ≤ n :=
+  ⟨(ceilDiv1000_spec s).1, fun n h => ceilDiv1000_least s n h⟩
+
+/-- `⌈a⌉ + ⌈b⌉ ≥ ⌈a + b⌉` (and at most one more). -/
+theorem ceil_add_le (a b : Nat) :
+    ceilDiv1000 (a + b) ≤ ceilDiv1000 a + ceilDiv1000 b ∧ ceilDiv1000 a + ceilDiv1000 b ≤ ceilDiv1000 (a + b) + 1 :=
+  ⟨ceilDiv1000_add_le a b, ceilDiv1000_add_ge a b⟩
+
+example : ceilDiv1000 (500 + 500) = 1 ∧ ceilDiv1000 500 + ceilDiv1000 500 = 2 := by decide
+
+/-- `feesForCount(n, keyset) = ⌈n · ppk / 1000⌉` when `n · ppk + 999` fits 64 bits … -/
+theorem feesForCount_eq (n : Nat) (ppk : UInt64) (h : n * ppk.toNat + 999 < 2 ^ 64) :
+    (feesForCount n ppk).toNat = ceilDiv1000 (n * ppk.toNat) := feesForCount_exact h
+
+/-- … and for every input: the accumulation and the `+ 999` both wrap modulo 2^64. -/
+theorem feesForCount_wrap (n : Nat) (ppk : UInt64) :
+    (feesForCount n ppk).toNat = (((n * ppk.toNat) % 2 ^ 64 + 999) % 2 ^ 64) / 1000 := feesForCount_toNat n ppk
+
+example : feesForCount 3 1000 = 3 ∧ feesForCount 3 250 = 1 ∧ feesForCount 0 2500 = 0 := by decide
+example : 3 * (1000 : UInt64).toNat + 999 < 2 ^ 64 := by decide
+/-- wrap: `2 · 2^63` accumulates to 0. -/
+example : feesForCount 2 (UInt64.ofNat (2 ^ 63)) = 0 := by decide
+
+/-- `feesForProofs = ⌈Σ ppk / 1000⌉` over the proofs' keysets (active id first, then the inactive map,
+    unknown keyset: 0) when `Σ ppk + 999` fits 64 bits … -/
+theorem feesForProofs_eq (m : Mint) (ps : List P) (h : ppkSum m ps + 999 < 2 ^ 64) :
+    (feesForProofs m ps).toNat = ceilDiv1000 (ppkSum m ps) := feesForProofs_exact h
+
+/-- … and for every input. -/
+theorem feesForProofs_wrap (m : Mint) (ps : List P) :
+    (feesForProofs m ps).toNat = ((ppkSum m ps % 2 ^ 64 + 999) % 2 ^ 64) / 1000 := feesForProofs_toNat m ps
+
+example : feesForProofs { activeId := 1, activePpk := 250, inactive := [(2, 999)] }
+    [⟨4, 1, 0⟩, ⟨4, 2, 1⟩, ⟨1, 7, 2⟩] = 2 := by decide
+example : ppkSum { activeId := 1, activePpk := 250, inactive := [(2, 999)] }
+    [⟨4, 1, 0⟩, ⟨4, 2, 1⟩, ⟨1, 7, 2⟩] + 999 < 2 ^ 64 := by decide
+
+/-- The mint's `TransactionFees` is `⌈Σ ppk / 1000⌉` over its own keyset table (no wrap) … -/
+theorem transactionFees_eq_ceil (ppkOfKeyset : Nat → UInt64) (inputs : List P)
+    (h : natSum (inputs.map (fun p => ppkOfKeyset p.ks)) + 999 < 2 ^ 64) :
+    (transactionFees ppkOfKeyset inputs).toNat = ceilDiv1000 (natSum (inputs.map (fun p => ppkOfKeyset p.ks))) :=
+  feesOfPpks_exact _ h
+
+/-- … and the wallet computes the same number whenever its keyset table agrees with the mint's on the
+    proofs' keysets (same code shape, `fees += ppk; (fees + 999) / 1000`), wrap-around included. -/
+theorem wallet_fee_eq_mint_fee (m : Mint) (ppkOfKeyset : Nat → UInt64) (ps : List P)
+    (h : ∀ p ∈ ps, m.ppkOf p.ks = ppkOfKeyset p.ks) : feesForProofs m ps = transactionFees ppkOfKeyset ps := by
+  unfold feesForProofs transactionFees ppks
+  rw [List.map_congr_left h]
+
+example : transactionFees (fun _ => 1000) [⟨1, 1, 0⟩, ⟨1, 1, 1⟩, ⟨2, 1, 2⟩, ⟨2, 1, 3⟩] = 4 := by decide
+example : natSum (([⟨1, 1, 0⟩, ⟨1, 1, 1⟩, ⟨2, 1, 2⟩, ⟨2, 1, 3⟩] : List P).map (fun _ => (1000 : UInt64))) + 999
+    < 2 ^ 64 := by decide
+/-- a wallet table that agrees with the mint's on the keysets of the proofs -/
+example : ∀ p ∈ ([⟨4, 1, 0⟩, ⟨4, 2, 1⟩] : List P),
+    ({ activeId := 1, activePpk := 250, inactive := [(2, 999)] } : Mint).ppkOf p.ks
+      = (fun k => if k = 1 then 250 else 999) p.ks := by decide
+
+/-! ## select_sound -/
+
+/-- A successful `selectProofsToSend` returns a sub-multiset of the proofs it was given that passes the
+    code's own `uint64` tests — for every input, nothing assumed about sizes. -/
+theorem select_sound_u64 {srt : Sorter} (hs : srt.OK) {m : Mint} {proofs sel : List P} {amount : UInt64}
+    {inc : Bool} (h : selectProofsToSend srt m proofs amount inc = .ok sel) :
+    (∃ rest, (sel ++ rest).Perm proofs) ∧ ¬ (proofsAmount sel < amount + feeOpt m inc sel) :=
+  ⟨(selectProofsToSend_ok_u64 hs h).1, (selectProofsToSend_ok_u64 hs h).2.1⟩
+
+example : selectProofsToSend stableSorter { activeId := 1, activePpk := 1000, inactive := [] }
+    [⟨1, 1, 0⟩, ⟨2, 1, 1⟩, ⟨8, 1, 2⟩] 2 true = .ok [⟨2, 1, 1⟩, ⟨1, 1, 0⟩, ⟨8, 1, 2⟩] := by decide
+
+/-- In ℕ: a successful `selectProofsToSend` returns a sub-multiset of the holdings worth at least
+    `amount + fee(selected)`, provided the holdings' value plus the fee of spending all of them, the ppk sum
+    and `amount + that fee` fit 64 bits. -/
+theorem select_sound_toSend {srt : Sorter} (hs : srt.OK) {m : Mint} {proofs sel : List P} {amount : UInt64}
+    {inc : Bool} (h : selectProofsToSend srt m proofs amount inc = .ok sel)
+    (hn : NoWrap m inc proofs) (hA : amount.toNat + feeOptN m inc proofs < 2 ^ 64) :
+    (∃ rest, (sel ++ rest).Perm proofs) ∧ amount.toNat + feeOptN m inc sel ≤ amountN sel :=
+  selectProofsToSend_ok_nat hs h hn hA
+
+example : NoWrap { activeId := 1, activePpk := 1000, inactive := [] } true [⟨1, 1, 0⟩, ⟨2, 1, 1⟩, ⟨8, 1, 2⟩] ∧
+    (2 : UInt64).toNat + feeOptN { activeId := 1, activePpk := 1000, inactive := [] } true
+      [⟨1, 1, 0⟩, ⟨2, 1, 1⟩, ⟨8, 1, 2⟩] < 2 ^ 64 := ⟨⟨by decide, fun _ => by decide⟩, by decide⟩
+
+/-- What happens on wrap-around: without `hA` the ℕ statement fails. `amount = 2^64-1`, one proof of
+    `2^64-1` at ppk 1000: `remainingAmount + fees` and `amount + fees` wrap to 0, both tests pass, and the
+    proof is returned although it does not cover `amount + 1`. -/
+example :
+    selectProofsToSend stableSorter { activeId := 1, activePpk := 1000, inactive := [] }
+      [⟨UInt64.ofNat (2 ^ 64 - 1), 1, 0⟩] (UInt64.ofNat (2 ^ 64 - 1)) true
+      = .ok [⟨UInt64.ofNat (2 ^ 64 - 1), 1, 0⟩] ∧
+    ¬ ((UInt64.ofNat (2 ^ 64 - 1)).toNat + feeOptN { activeId := 1, activePpk := 1000, inactive := [] } true
+        [⟨UInt64.ofNat (2 ^ 64 - 1), 1, 0⟩] ≤ amountN [⟨UInt64.ofNat (2 ^ 64 - 1), 1, 0⟩]) := by decide
+
+/-- `select_sound`: a successful `selectProofsForAmount` (inactive keysets first, then the active one)
+    returns a sub-multiset of the holdings whose value is at least `amount + fee(selected)`; the inactive
+    and the active part are joined by `⌈a⌉ + ⌈b⌉ ≥ ⌈a + b⌉`. -/
+theorem select_sound {srt : Sorter} (hs : srt.OK) {m : Mint} {inactive active sel : List P}
+    {amount : UInt64} {inc : Bool} (h : selectProofsForAmount srt m inactive active amount inc = .ok sel)
+    (hn : NoWrap m inc (inactive ++ active))
+    (hA : amount.toNat + feeOptN m inc inactive + feeOptN m inc active < 2 ^ 64) :
+    (∃ rest, (sel ++ rest).Perm (inactive ++ active)) ∧ amount.toNat + feeOptN m inc sel ≤ amountN sel :=
+  selectProofsForAmount_ok_nat hs h hn hA
+
+/-! Non-vacuity: a wallet with two inactive keysets and fees; the selection takes all inactive proofs and
+    tops up from the active keyset. -/
+def exMint : Mint := { activeId := 1, activePpk := 500, inactive := [(2, 1000), (3, 250)] }
+def exInactive : List P := [⟨2, 2, 0⟩, ⟨1, 3, 1⟩]
+def exActive : List P := [⟨1, 1, 2⟩, ⟨4, 1, 3⟩, ⟨8, 1, 4⟩]
+
+example : selectProofsForAmount stableSorter exMint exInactive exActive 6 true
+    = .ok [⟨2, 2, 0⟩, ⟨1, 3, 1⟩, ⟨4, 1, 3⟩, ⟨1, 1, 2⟩, ⟨8, 1, 4⟩] := by decide
+example : NoWrap exMint true (exInactive ++ exActive) := ⟨by decide, fun _ => by decide⟩
+example : (6 : UInt64).toNat + feeOptN exMint true exInactive + feeOptN exMint true exActive < 2 ^ 64 := by decide
+example : stableSorter.OK := stableSorter_ok
+
+/-- Selected proofs are pairwise distinct whenever the holdings are (a sub-multiset of a duplicate-free list). -/
+theorem select_distinct {sel rest holdings : List P} (h : (sel ++ rest).Perm holdings) (hd : holdings.Nodup) :
+    sel.Nodup :=
+  ((h.nodup_iff.2 hd).sublist (List.sublist_append_left sel rest))
+
+example : (exInactive ++ exActive).Nodup := by decide
+
+/-- The iteration bound of the model's loop is immaterial: every fuel above the number of proofs gives the
+    state the unbounded Go loop ends in. -/
+theorem loop_fuel_irrelevant {srt : Sorter} (hs : srt.OK) (m : Mint) (proofs : List P) (amount : UInt64)
+    (inc : Bool) (fuel : Nat) (hf : proofs.length < fuel) :
+    selectLoop srt m amount inc fuel (initSt srt proofs amount) = finalSt srt m proofs amount inc :=
+  selectProofsToSend_fuel hs m proofs amount inc fuel hf
+
+/-! ## send_exact -/
+
+/-- `send_exact_offline`: when `getProofsForAmount` hands over stored proofs, the explicit
+    `selectedProofs.Amount() == amount + fees` test makes them worth exactly `amount + fee(those proofs)`
+    (`uint64` equality for every input; ℕ equality and sub-multiset under the no-wrap hypotheses). -/
+theorem send_exact_offline {srt : Sorter} (hs : srt.OK) {m : Mint} {inactive active sel : List P}
+    {amount : UInt64} {inc : Bool} (h : getProofsForAmount srt m inactive active amount inc = .offline sel) :
+    proofsAmount sel = amount + feeOpt m inc sel ∧
+    (NoWrap m inc (inactive ++ active) →
+      amount.toNat + feeOptN m inc inactive + feeOptN m inc active < 2 ^ 64 →
+      (∃ rest, (sel ++ rest).Perm (inactive ++ active)) ∧ amountN sel = amount.toNat + feeOptN m inc sel) := by
+  rcases getProofsForAmount_cases srt m inactive active amount inc with
+    ⟨e, _, _, he⟩ | ⟨sel', hsel, heq, ho⟩ | ⟨sel', _, _, hsw⟩
+  · rw [he] at h; exact SendOutcome.noConfusion h
+  · rw [ho] at h
+    injection h with h
+    subst h
+    refine ⟨heq, fun hn hA => ?_⟩
+    obtain ⟨⟨rest, hp⟩, _⟩ := selectProofsForAmount_ok_nat hs hsel hn hA
+    refine ⟨⟨rest, hp⟩, ?_⟩
+    obtain ⟨_, s2, s3, s4⟩ := hn.sub hp
+    have i2 := feeOptN_le_of_sub m inc (sel := inactive) (rest := active) (List.Perm.refl _)
+    have := congrArg UInt64.toNat heq
+    rw [UInt64.toNat_add, s3, s4] at this
+    have a2 := feeOptN_append_le m inc inactive active
+    rw [this, Nat.mod_eq_of_lt (by omega)]
+  · rw [hsw] at h
+    rcases swapToSend_cases srt m inactive active amount inc with ⟨e, he, _⟩ | ⟨plan, hp, _⟩
+    · rw [he] at h; exact SendOutcome.noConfusion h
+    · rw [hp] at h; exact SendOutcome.noConfusion h
+
+/-- amount 5 with fees: `[2,1,4,1]` = 8 = 5 + ⌈(1000+250+500+500)/1000⌉. -/
+example : getProofsForAmount stableSorter exMint exInactive exActive 5 true
+    = .offline [⟨2, 2, 0⟩, ⟨1, 3, 1⟩, ⟨4, 1, 3⟩, ⟨1, 1, 2⟩] := by decide
+example : (5 : UInt64).toNat + feeOptN exMint true exInactive + feeOptN exMint true exActive < 2 ^ 64 := by decide
+
+/-- `send_exact_swap_nofee`: without fees the proofs created by the swap for the recipient are worth exactly
+    `amount` (ℕ sum; they are the set bits of `amount`). -/
+theorem send_exact_swap_nofee {srt : Sorter} {m : Mint} {inactive active : List P} {amount : UInt64}
+    {plan : SwapPlan} (h : getProofsForAmount srt m inactive active amount false = .swap plan) :
+    natSum plan.send = amount.toNat ∧ plan.send = sortU64 (amountSplit amount) := by
+  have hsend : plan.send = sendSplit m.activePpk amount false := by
+    rcases getProofsForAmount_cases srt m inactive active amount false with
+      ⟨e, _, _, he⟩ | ⟨sel', _, _, ho⟩ | ⟨sel', _, _, hsw⟩
+    · rw [he] at h; exact SendOutcome.noConfusion h
+    · rw [ho] at h; exact SendOutcome.noConfusion h
+    · rw [hsw] at h
+      rcases swapToSend_cases srt m inactive active amount false with ⟨e, he, _⟩ | ⟨plan', hp, hs, _⟩
+      · rw [he] at h; exact SendOutcome.noConfusion h
+      · rw [hp] at h; injection h with h; subst h; exact hs
+  refine ⟨?_, ?_⟩
+  · rw [hsend, sendSplit_natSum, feesToReceive_nofee]; simp
+  · rw [hsend]; simp [sendSplit, feesToReceive, amountSplit_zero]
+
+example : getProofsForAmount stableSorter exMint exInactive exActive 5 false =
+    .swap { amount' := 5, feesToReceive := 0, inputs := [⟨2, 2, 0⟩, ⟨1, 3, 1⟩, ⟨4, 1, 3⟩, ⟨1, 1, 2⟩], send := [1, 4],
+            proofsAmount := 8, fees := 3, changeAmount := 0, change := [] } := by decide
+
+/-- The fee the mint charges when the recipient redeems the sent proofs (all of the active keyset):
+    `TransactionFees` of `send.length` proofs at the active keyset's ppk. -/
+def redeemFee (m : Mint) (send : List UInt64) : UInt64 := feesForCount send.length m.activePpk
+
+theorem redeemFee_eq_transactionFees (m : Mint) (ppkOfKeyset : Nat → UInt64) (send : List UInt64)
+    (h : ppkOfKeyset m.activeId = m.activePpk) :
+    redeemFee m send = transactionFees ppkOfKeyset (send.map (fun a => { amount := a, ks := m.activeId })) := by
+  unfold redeemFee feesForCount transactionFees
+  congr 1
+  rw [List.map_map]
+  induction send with
+  | nil => rfl
+  | cons x xs ih => simp [List.replicate_succ, ih, h]
+
+example : (fun (_ : Nat) => (1000 : UInt64)) (Mint.mk 1 1000 []).activeId = (Mint.mk 1 1000 []).activePpk := rfl
+
+/-- `send_exact_fee`, the full property: with `includeFees` the proofs handed over by the swap path are worth
+    `amount +` the fee the mint will charge for those very proofs. -/
+def send_exact_fee_full : Prop :=
+  ∀ (srt : Sorter) (m : Mint) (inactive active : List P) (amount : UInt64) (plan : SwapPlan), srt.OK →
+    getProofsForAmount srt m inactive active amount true = .swap plan →
+    natSum plan.send = amount.toNat + (redeemFee m plan.send).toNat
+
+def k6Mint : Mint := { activeId := 1, activePpk := 1000, inactive := [] }
+def k6Active : List P := [⟨1, 1, 0⟩, ⟨2, 1, 1⟩, ⟨4, 1, 2⟩, ⟨8, 1, 3⟩]
+def k6Plan : SwapPlan :=
+  { amount' := 6, feesToReceive := 3, inputs := [⟨4, 1, 2⟩, ⟨2, 1, 1⟩, ⟨1, 1, 0⟩, ⟨8, 1, 3⟩], send := [1, 1, 2, 2],
+    proofsAmount := 15, fees := 4, changeAmount := 5, change := [1, 1, 1, 2] }
+
+/-- K6 witness, evaluated: ppk 1000, amount 3: the estimate `feesForCount(2+1) = 3` is itself split into
+    `[1,2]`; four proofs `[1,1,2,2]` worth 6 are sent, the mint charges 4 for them, the recipient nets 2. -/
+theorem k6_witness : getProofsForAmount stableSorter k6Mint [] k6Active 3 true = .swap k6Plan := by decide
+
+/-- The code as it is violates `send_exact_fee` (known finding `C18/swapToSend/fee-split-popcount`). -/
+theorem send_exact_fee_full_false : ¬ send_exact_fee_full := fun h =>
+  absurd (h stableSorter k6Mint [] k6Active 3 k6Plan stableSorter_ok k6_witness) (by decide)
+
+/-- `send_exact_fee_partial`: the property holds exactly when the estimate is a fixed point of the fee of the
+    number of proofs really sent: `fee(popcount(amount) + popcount(f)) = f` for `f = feesForCount(popcount(amount)+1)`. -/
+theorem send_exact_fee_partial {srt : Sorter} {m : Mint} {inactive active : List P} {amount : UInt64}
+    {plan : SwapPlan} (h : getProofsForAmount srt m inactive active amount true = .swap plan)
+    (hfix : feesForCount ((amountSplit amount).length + (amountSplit (feesToReceive m.activePpk amount true)).length)
+              m.activePpk = feesToReceive m.activePpk amount true) :
+    natSum plan.send = amount.toNat + (redeemFee m plan.send).toNat := by
+  have hsend : plan.send = sendSplit m.activePpk amount true := by
+    rcases getProofsForAmount_cases srt m inactive active amount true with
+      ⟨e, _, _, he⟩ | ⟨sel', _, _, ho⟩ | ⟨sel', _, _, hsw⟩
+    · rw [he] at h; exact SendOutcome.noConfusion h
+    · rw [ho] at h; exact SendOutcome.noConfusion h
+    · rw [hsw] at h
+      rcases swapToSend_cases srt m inactive active amount true with ⟨e, he, _⟩ | ⟨plan', hp, hs, _⟩
+      · rw [he] at h; exact SendOutcome.noConfusion h
+      · rw [hp] at h; injection h with h; subst h; exact hs
+  rw [hsend, sendSplit_natSum, redeemFee, sendSplit_length, hfix]
+
+/-- The hypothesis is necessary as well (given the swap path was taken): exactness fails whenever it fails. -/
+theorem send_exact_fee_partial_converse {srt : Sorter} {m : Mint} {inactive active : List P} {amount : UInt64}
+    {plan : SwapPlan} (h : getProofsForAmount srt m inactive active amount true = .swap plan)
+    (hex : natSum plan.send = amount.toNat + (redeemFee m plan.send).toNat) :
+    feesForCount ((amountSplit amount).length + (amountSplit (feesToReceive m.activePpk amount true)).length)
+      m.activePpk = feesToReceive m.activePpk amount true := by
+  have hsend : plan.send = sendSplit m.activePpk amount true := by
+    rcases getProofsForAmount_cases srt m inactive active amount true with
+      ⟨e, _, _, he⟩ | ⟨sel', _, _, ho⟩ | ⟨sel', _, _, hsw⟩
+    · rw [he] at h; exact SendOutcome.noConfusion h
+    · rw [ho] at h; exact SendOutcome.noConfusion h
+    · rw [hsw] at h
+      rcases swapToSend_cases srt m inactive active amount true with ⟨e, he, _⟩ | ⟨plan', hp, hs, _⟩
+      · rw [he] at h; exact SendOutcome.noConfusion h
+      · rw [hp] at h; injection h with h; subst h; exact hs
+  rw [hsend, sendSplit_natSum, redeemFee, sendSplit_length] at hex
+  exact UInt64.toNat_inj.1 (by omega)
+
+/-- Non-vacuity of the partial theorem: ppk 1000, amount 4 from `[8]`: estimate 2 = one proof, two proofs sent,
+    the mint charges 2. -/
+example : getProofsForAmount stableSorter k6Mint [] [⟨8, 1, 0⟩] 4 true =
+      .swap { amount' := 6, feesToReceive := 2, inputs := [⟨8, 1, 0⟩], send := [2, 4], proofsAmount := 8, fees := 1,
+              changeAmount := 1, change := [1] } ∧
+    feesForCount ((amountSplit 4).length + (amountSplit (feesToReceive k6Mint.activePpk 4 true)).length)
+      k6Mint.activePpk = feesToReceive k6Mint.activePpk 4 true := ⟨by decide, by decide⟩
+/-- … and of the converse: `[2,4]` is worth 6 = 4 + the mint's fee 2 for two proofs. -/
+example : natSum ([2, 4] : List UInt64) = (4 : UInt64).toNat + (redeemFee k6Mint [2, 4]).toNat := by decide
+
+/-! ## send_succeeds -/
+
+/-- `selectProofsToSend` never refuses what its input can pay for: if `amount +` the fee of spending EVERY
+    proof given is covered by those proofs, it returns proofs.  Full `uint64` strength: every ppk, every
+    tie-breaking; the proof goes through the wrapping `remainingAmount = amount + fees - selectedProofsSum`
+    (when it wraps, the loop either breaks on the also-wrapping `remainingAmount+fees` or selects everything,
+    and both pass the final test). -/
+theorem send_succeeds_toSend {srt : Sorter} (hs : srt.OK) {m : Mint} {proofs : List P} {amount : UInt64}
+    {inc : Bool} (hn : NoWrap m inc proofs) (hA : amount.toNat + feeOptN m inc proofs ≤ amountN proofs) :
+    ∃ sel, selectProofsToSend srt m proofs amount inc = .ok sel :=
+  selectProofsToSend_succeeds hs hn hA
+
+/-- Non-vacuity, through the wrap-around: holdings `[1,2,4,8]`, amount 3, ppk 1000 (DESIGN C18): after 2, 1, 4
+    are taken `remainingAmount = 3 + 3 - 7` wraps to 2^64-1 and the loop takes the 8 as well. -/
+example : selectProofsToSend stableSorter k6Mint k6Active 3 true
+    = .ok [⟨2, 1, 1⟩, ⟨1, 1, 0⟩, ⟨4, 1, 2⟩, ⟨8, 1, 3⟩] := by decide
+example : NoWrap k6Mint true k6Active ∧ (3 : UInt64).toNat + feeOptN k6Mint true k6Active ≤ amountN k6Active :=
+  ⟨⟨by decide, fun _ => by decide⟩, by decide⟩
+
+/-- `send_succeeds`, the full property: a send of no more than the balance at that mint minus the fees of
+    spending every proof held there (and of the fee added for the proofs sent) does not fail. -/
+def send_succeeds_full : Prop :=
+  ∀ (srt : Sorter) (m : Mint) (inactive active : List P) (amount : UInt64) (inc : Bool), srt.OK →
+    NoWrap m true (inactive ++ active) →
+    amount.toNat + (feesToReceive m.activePpk amount inc).toNat + feeN m (inactive ++ active)
+      ≤ amountN (inactive ++ active) →
+    ∀ e, getProofsForAmount srt m inactive active amount inc ≠ .err e
+
+def discMint : Mint := { activeId := 1, activePpk := 1000, inactive := [(2, 1000)] }
+def discInactive : List P := [⟨4, 2, 0⟩, ⟨4, 2, 1⟩]
+def discActive : List P := [⟨2, 1, 2⟩]
+
+/-- Witness 1 (`…/inactive-selection-discarded`): inactive `[4,4]`, active `[2]`, ppk 1000, Send(7): balance 10,
+    fee of all three proofs 3; the inner selection over `[4,4]` fails (8 < 7+2), its error is dropped together
+    with both proofs, and the active `[2]` cannot pay 7. -/
+theorem discarded_witness :
+    getProofsForAmount stableSorter discMint discInactive discActive 7 false = .err .errBalance := by decide
+
+def ceilMint : Mint := { activeId := 1, activePpk := 500, inactive := [(2, 500)] }
+
+/-- Witness 2 (`…/per-call-fee-ceilings`): inactive `[1]`, active `[2]`, both ppk 500, amount 2 as `swapToSend`
+    asks for it: balance 3, fee of both proofs `⌈1000/1000⌉ = 1`; the code wants `⌈500/1000⌉ + ⌈500/1000⌉ = 2`. -/
+theorem ceilings_witness :
+    selectProofsForAmount stableSorter ceilMint [⟨1, 2, 0⟩] [⟨2, 1, 1⟩] 2 true = .errFunds 2 1 3 ∧
+    (2 : UInt64).toNat + feeN ceilMint ([⟨1, 2, 0⟩] ++ [⟨2, 1, 1⟩]) ≤ amountN ([⟨1, 2, 0⟩] ++ [⟨2, 1, 1⟩]) := by
+  decide
+
+/-- The code as it is violates `send_succeeds` when proofs of an inactive keyset are held. -/
+theorem send_succeeds_full_false : ¬ send_succeeds_full := fun h =>
+  h stableSorter discMint discInactive discActive 7 false stableSorter_ok
+    ⟨by decide, fun _ => by decide⟩ (by decide) _ discarded_witness
+
+/-- `send_succeeds_partial`: `selectProofsForAmount` returns proofs under the exact extra condition
+    `Affordable` (`Lemmas/Select.lean`): if the inactive proofs are worth less than the amount, the holdings
+    must cover the amount plus the two SEPARATELY rounded-up fees; otherwise either the inactive proofs cover
+    amount + their fee or the active proofs alone cover amount + theirs.  Every ppk, every tie-breaking. -/
+theorem send_succeeds_partial {srt : Sorter} (hs : srt.OK) {m : Mint} {inactive active : List P}
+    {amount : UInt64} {inc : Bool} (hn : NoWrap m inc (inactive ++ active))
+    (hA : amount.toNat + feeOptN m inc inactive + feeOptN m inc active < 2 ^ 64)
+    (haff : Affordable m inc inactive active amount) :
+    ∃ sel, selectProofsForAmount srt m inactive active amount inc = .ok sel :=
+  selectProofsForAmount_succeeds hs hn hA haff
+
+example : Affordable exMint true exInactive exActive 6 :=
+  ⟨fun _ => by decide, fun h => absurd h (by decide)⟩
+
+/-- `send_succeeds` at full strength for a wallet that holds no proofs of inactive keysets (the normal case:
+    inactive keysets only exist after the mint rotated): if `amount + feesToReceive +` the fee of spending
+    every proof held is covered by the balance, `getProofsForAmount` (offline selection, else `swapToSend`'s
+    selection) does not fail. -/
+theorem send_succeeds_no_inactive {srt : Sorter} (hs : srt.OK) {m : Mint} {active : List P}
+    {amount : UInt64} {inc : Bool} (hn : NoWrap m true active)
+    (h : amount.toNat + (feesToReceive m.activePpk amount inc).toNat + feeN m active ≤ amountN active) :
+    ∀ e, getProofsForAmount srt m [] active amount inc ≠ .err e := by
+  intro e he
+  have hv := hn.value
+  have hfe : feeOptN m true active = feeN m active := rfl
+  have hfi : feeOptN m inc active ≤ feeN m active := by cases inc <;> simp [feeOptN]
+  have hnil : ∀ b, feeOptN m b ([] : List P) = 0 := by intro b; cases b <;> simp [feeOptN, feeN, ceilDiv1000]
+  have hn' : NoWrap m inc ([] ++ active) := by
+    refine ⟨by simp only [List.nil_append]; omega, fun hi => ?_⟩
+    simpa using hn.ppk rfl
+  have aff : ∀ (a : UInt64) (b : Bool), a.toNat + feeOptN m b active ≤ amountN active → Affordable m b [] active a := by
+    intro a b hab
+    refine ⟨fun _ => by simp only [hnil, amountN_nil]; omega, fun h0 => Or.inl ?_⟩
+    simp only [hnil, amountN_nil] at h0 ⊢; omega
+  rcases getProofsForAmount_cases srt m [] active amount inc with
+    ⟨e', he', hne, _⟩ | ⟨sel', _, _, ho⟩ | ⟨sel', _, _, hsw⟩
+  · obtain ⟨sel, hsel⟩ := selectProofsForAmount_succeeds hs hn' (by simp only [hnil]; omega)
+      (aff amount inc (by omega))
+    rw [hsel] at he'
+    exact hne sel he'.symm
+  · rw [ho] at he; exact SendOutcome.noConfusion he
+  · rw [hsw] at he
+    rcases swapToSend_cases srt m [] active amount inc with ⟨e', _, hsel', hne⟩ | ⟨plan, hp, _⟩
+    · have hsum : (amount + feesToReceive m.activePpk amount inc).toNat
+          = amount.toNat + (feesToReceive m.activePpk amount inc).toNat := by
+        rw [UInt64.toNat_add, Nat.mod_eq_of_lt (by omega)]
+      obtain ⟨sel, hsel⟩ := selectProofsForAmount_succeeds (inc := true) hs (by simpa using hn)
+        (by simp only [hnil]; omega) (aff (amount + feesToReceive m.activePpk amount inc) true (by omega))
+      rw [hsel] at hsel'
+      exact hne sel hsel'.symm
+    · rw [hp] at he; exact SendOutcome.noConfusion he
+
+/-- The same in the property's words: `amount +` the fee of the proofs actually SENT `+` the fee of spending
+    every proof held `≤` balance suffices (the estimate added never exceeds the fee of the proofs sent). -/
+theorem send_succeeds_no_inactive' {srt : Sorter} (hs : srt.OK) {m : Mint} {active : List P}
+    {amount : UInt64} {inc : Bool} (hn : NoWrap m true active)
+    (hc : (sendSplit m.activePpk amount inc).length * m.activePpk.toNat + 999 < 2 ^ 64)
+    (h : amount.toNat + (redeemFee m (sendSplit m.activePpk amount inc)).toNat + feeN m active ≤ amountN active) :
+    ∀ e, getProofsForAmount srt m [] active amount inc ≠ .err e := by
+  have := feesToReceive_le_sent m.activePpk amount inc hc
+  exact send_succeeds_no_inactive hs hn (by unfold redeemFee at h; omega)
+
+example : NoWrap k6Mint true k6Active ∧
+    (3 : UInt64).toNat + (feesToReceive k6Mint.activePpk 3 true).toNat + feeN k6Mint k6Active ≤ amountN k6Active :=
+  ⟨⟨by decide, fun _ => by decide⟩, by decide⟩
+/-- in the property's words: amount 3 + fee of the four proofs sent 4 + fee of the four proofs held 4 ≤ 15 -/
+example : (sendSplit k6Mint.activePpk 3 true).length * k6Mint.activePpk.toNat + 999 < 2 ^ 64 ∧
+    (3 : UInt64).toNat + (redeemFee k6Mint (sendSplit k6Mint.activePpk 3 true)).toNat + feeN k6Mint k6Active
+      ≤ amountN k6Active := by decide
+
+/-! ## splitWalletTarget and the swap request -/
+
+/-- `splitWalletTarget_sum`: for every wallet content and every amount, the returned amounts are powers of
+    two, sorted, and sum to `amountToSplit` (in ℕ; `walletAmounts.length < 2^63` holds of every Go slice and
+    is what keeps `uint64(target)-uint64(count)` from wrapping twice). -/
+theorem splitWalletTarget_sum (walletAmounts : List UInt64) (amountToSplit : UInt64)
+    (hw : walletAmounts.length < 2 ^ 63) :
+    natSum (splitWalletTarget walletAmounts amountToSplit) = amountToSplit.toNat ∧
+    (∀ x ∈ splitWalletTarget walletAmounts amountToSplit, ∃ e, e < 64 ∧ x.toNat = 2 ^ e) ∧
+    (splitWalletTarget walletAmounts amountToSplit).Pairwise (· ≤ ·) :=
+  splitWalletTarget_spec walletAmounts amountToSplit hw
+
+/-- wallet `[1,1,1,1,2]`, 13 to split: wanted below 13 are `2,2,4,4` (three 1s are there), rest 1. -/
+example : splitWalletTarget [1, 1, 1, 1, 2] 13 = [1, 2, 2, 4, 4] := by decide
+/-- the largest amount: 3·(2^0+…+2^58) + 2·2^59 taken from the targets, the remainder split by bits. -/
+example : natSum (splitWalletTarget [] (UInt64.ofNat (2 ^ 64 - 1))) = 2 ^ 64 - 1 := by decide
+
+/-- `swap_balanced`: the swap request built by `swapToSend` is exactly balanced in ℕ — inputs = send outputs
+    + change outputs + fee of the inputs — so the unchecked `proofsAmount - amount - uint64(fees)` does not
+    wrap, the mint's `proofsAmount - fees ≥ Σ outputs` test passes, and nothing is left at the mint; the send
+    outputs are worth `amount + feesToReceive`. -/
+theorem swap_balanced {srt : Sorter} (hs : srt.OK) {m : Mint} {inactive active : List P} {amount : UInt64}
+    {inc : Bool} {plan : SwapPlan} (h : getProofsForAmount srt m inactive active amount inc = .swap plan)
+    (hn : NoWrap m true (inactive ++ active))
+    (hA : amount.toNat + (feesToReceive m.activePpk amount inc).toNat + feeOptN m true inactive
+            + feeOptN m true active < 2 ^ 64)
+    (hw : (inactive ++ active).length < 2 ^ 63) :
+    (∃ rest, (plan.inputs ++ rest).Perm (inactive ++ active)) ∧
+    natSum plan.send = amount.toNat + (feesToReceive m.activePpk amount inc).toNat ∧
+    natSum plan.send + natSum plan.change + feeN m plan.inputs = amountN plan.inputs :=
+  swapToSend_balanced hs (getProofsForAmount_swap h) hn hA hw
+
+/-- `k6_witness` meets the hypotheses: inputs `[4,2,1,8]` = 15 = send 6 + change 5 + fee 4. -/
+example : NoWrap k6Mint true ([] ++ k6Active) ∧
+    (3 : UInt64).toNat + (feesToReceive k6Mint.activePpk 3 true).toNat + feeOptN k6Mint true []
+      + feeOptN k6Mint true k6Active < 2 ^ 64 ∧ (([] : List P) ++ k6Active).length < 2 ^ 63 :=
+  ⟨⟨by decide, fun _ => by decide⟩, by decide, by decide⟩
+
+/-! ## calculateBlankOutputs (used by Melt; same file of pure helpers) -/
+
+/-- The integer function `calculateBlankOutputs` computes — exactly for `feeReserve < 2^48` and for powers of
+    two, where the float evaluation is provably this function (`blankOutputsCertain`; compared with the real
+    code on every run) — provides enough blank outputs: `feeReserve ≤ 2^n`. -/
+theorem blankOutputs_enough (feeReserve : UInt64) (h : feeReserve.toNat < 2 ^ 53) :
+    feeReserve.toNat ≤ 2 ^ calculateBlankOutputs feeReserve := calculateBlankOutputs_enough feeReserve h
+
+example : calculateBlankOutputs 0 = 0 ∧ calculateBlankOutputs 1 = 1 ∧ calculateBlankOutputs 5 = 3 ∧
+    calculateBlankOutputs 1024 = 10 ∧ calculateBlankOutputs 1025 = 11 := by decide
+/-- where Go's float evaluation is one short of the exact value (observed: 2^49 + 1 ↦ 49) the model says
+    "not certain" -/
+example : calculateBlankOutputs (UInt64.ofNat (2 ^ 49 + 1)) = 50 ∧
+    blankOutputsCertain (UInt64.ofNat (2 ^ 49 + 1)) = false ∧ blankOutputsCertain (UInt64.ofNat (2 ^ 63)) = true := by
+  decide
+
+/-! ## the sorters the correspondence uses -/
+
+/-- Both sorters the driver runs the model with satisfy the hypothesis `Sorter.OK` of the theorems above and
+    sort by amount: the stable one (blind prediction) and, for every observed selection order, the oracle
+    one (replay of Go's tie-breaking) — so a replay can differ from the stable run only in the order of
+    proofs of equal amount. -/
+theorem driver_sorters_ok (chosen : List Nat) :
+    stableSorter.OK ∧ stableSorter.Sorted ∧ (oracleSorter chosen).OK ∧ (oracleSorter chosen).Sorted :=
+  ⟨stableSorter_ok, stableSorter_sorted, oracleSorter_ok chosen, oracleSorter_sorted chosen⟩
+
+/-- three proofs of amount 2: the oracle order `[2, 0]` makes the model pick uid 2, then 0 (stable: 0, 1). -/
+example : selectProofsToSend (oracleSorter [2, 0]) k6Mint [⟨2, 1, 0⟩, ⟨2, 1, 1⟩, ⟨2, 1, 2⟩] 3 true
+    = .ok [⟨2, 1, 2⟩, ⟨2, 1, 0⟩, ⟨2, 1, 1⟩] := by decide
+
+/-! ## why K6 is recorded, and the proposed repair of `send_succeeds` -/
+
+/-- For the K6 witness no fee estimate at all is exact: with ppk 1000 and amount 3 there is no `f` whose own
+    split makes the fee of the proofs sent equal to `f` (`2 + popcount f = f` has no solution; the natural
+    iteration oscillates 3 ↔ 4).  So `send_exact_fee` cannot be repaired by a better estimate alone. -/
+theorem k6_no_exact_fee (f : UInt64) :
+    feesForCount ((amountSplit 3).length + (amountSplit f).length) 1000 ≠ f := by
+  intro h
+  have hlen := amountSplit_length_le f
+  have h3 : (amountSplit 3).length = 2 := by decide
+  have hk : (1000 : UInt64).toNat = 1000 := rfl
+  have hfee := feesForCount_exact (n := (amountSplit 3).length + (amountSplit f).length) (ppk := 1000)
+    (by rw [h3, hk]; omega)
+  rw [h, h3, hk] at hfee
+  have hf : f.toNat = 2 + (amountSplit f).length := by
+    rw [hfee]; unfold ceilDiv1000; omega
+  have hsmall : f.toNat < 67 := by omega
+  have key : ∀ k : Nat, k < 67 → k ≠ 2 + (amountSplit (UInt64.ofNat k)).length := by decide
+  exact key f.toNat hsmall (by rw [UInt64.ofNat_toNat]; exact hf)
+
+/-- The proposed repair (findings/C18-send-succeeds-fallback.patch, not applied): with the fallback to every
+    proof held, `selectProofsForAmount` keeps `select_sound` … -/
+theorem repair_sound {srt : Sorter} (hs : srt.OK) {m : Mint} {inactive active sel : List P}
+    {amount : UInt64} {inc : Bool} (h : selectProofsForAmountFixed srt m inactive active amount inc = .ok sel)
+    (hn : NoWrap m inc (inactive ++ active))
+    (hA : amount.toNat + feeOptN m inc inactive + feeOptN m inc active < 2 ^ 64) :
+    (∃ rest, (sel ++ rest).Perm (inactive ++ active)) ∧ amount.toNat + feeOptN m inc sel ≤ amountN sel :=
+  selectProofsForAmountFixed_ok_nat hs h hn hA
+
+/-- … and satisfies `send_succeeds` at full strength: whatever is covered by the holdings minus the fee of
+    spending every proof held is selected, with inactive keysets and any ppk. -/
+theorem repair_succeeds {srt : Sorter} {m : Mint} {inactive active : List P} {amount : UInt64} {inc : Bool}
+    (hn : NoWrap m inc (inactive ++ active))
+    (hA : amount.toNat + feeOptN m inc (inactive ++ active) ≤ amountN (inactive ++ active)) :
+    ∃ sel, selectProofsForAmountFixed srt m inactive active amount inc = .ok sel :=
+  selectProofsForAmountFixed_succeeds hn hA
+
+example : NoWrap discMint true (discInactive ++ discActive) ∧
+    (7 : UInt64).toNat + feeOptN discMint true (discInactive ++ discActive) ≤ amountN (discInactive ++ discActive) ∧
+    (7 : UInt64).toNat + feeOptN discMint true discInactive + feeOptN discMint true discActive < 2 ^ 64 :=
+  ⟨⟨by decide, fun _ => by decide⟩, by decide, by decide⟩
+
+/-- both recorded witnesses are selected by the repaired function -/
+example : selectProofsForAmountFixed stableSorter discMint discInactive discActive 7 true
+    = .ok (discInactive ++ discActive) := by decide
+example : selectProofsForAmountFixed stableSorter ceilMint [⟨1, 2, 0⟩] [⟨2, 1, 1⟩] 2 true
+    = .ok [⟨1, 2, 0⟩, ⟨2, 1, 1⟩] := by decide
 
 end Gonuts.Props.C18
